@@ -413,13 +413,18 @@ func CheckC15(e *Env) int {
 	for i := 0; i < nprog; i++ {
 		sc := c15Schemes[i%len(c15Schemes)]
 		r := Rng(e.Seed, "c15", i)
-		k := 4 + r.Intn(5)
+		// a rotating window sized so that every snippet meets every scheme in every tier; extra random ones mix contexts
+		nwin := nprog / len(c15Schemes)
+		w := (len(c15Corpus) + nwin - 1) / nwin
+		if w < 5 {
+			w = 5
+		}
+		k := w + r.Intn(3)
 		var sn []snippet
 		perm := r.Perm(len(c15Corpus))
-		start := (i / len(c15Schemes) * 5) % len(c15Corpus)
+		start := (i / len(c15Schemes) * w) % len(c15Corpus)
 		for j := 0; j < k; j++ {
-			// a rotating window guarantees every snippet meets every scheme; extra random ones mix contexts
-			if j < 5 {
+			if j < w {
 				sn = append(sn, c15Corpus[(start+j)%len(c15Corpus)])
 			} else {
 				sn = append(sn, c15Corpus[perm[j]])
